@@ -549,6 +549,7 @@ func run(c *vf.Ctx) {
 	c.Assume("equivalences: Add(path|dir)=git add -- p; AddWithOptions{All}=git add -A; AddGlob(g)=git add -- <filepath.Glob expansion of g over the worktree, .git excluded> (shell-style expansion, directories recursively); Remove=git rm -f [-r]; RemoveGlob(g)=git rm -f -- g (default pathspec: * crosses /, as go-git's index matcher does); Move=git mv; Clean{}=git clean -f; Clean{Dir}=git clean -f -d; Commit{All}=git commit [-a] with identical author/committer/date/message")
 	c.Assume("explicit Add of an ignored file is not generated (git add refuses without -f, go-git documents adding it: no equivalent command); Move of directories is documented as unsupported and not generated; .git/info/exclude is not used (C27 finding)")
 	c.Assume("twin A (written by git) is read with go-git's index decoder, validated against git ls-files -s on every 5th step; twin B (written by go-git) is always read by git")
+	c.Assume("racily-clean index entries are kept out of this check: twin.NewBase sets every tracked file's mtime (and the recorded entry mtime) 100 s before the index file, so a same-size edit is always visible through size or mtime; go-git's missing racy-git protection is covered by C25/C27 known findings")
 	c.Assume("index stat fields, cache-tree/untracked-cache extensions and commit ids are not compared; only paths, modes, ids, stages, remaining files, recorded tree, parents and HEAD")
 }
 
